@@ -77,6 +77,7 @@ type Bank struct {
 	valid  []*model.StructDef
 	rej    []*model.StructDef
 	reqs   []*model.StructDef // valid types with required fields somewhere
+	unk    []*model.StructDef // valid types with the unknown-fields holder
 	byst   []*model.StructDef
 	recur  []*model.StructDef
 	profID uint64
@@ -98,6 +99,9 @@ func NewBank(prof string, c *model.Corpus) *Bank {
 	for _, s := range b.valid {
 		if hasRequired(c, s, map[string]bool{}) {
 			b.reqs = append(b.reqs, s)
+		}
+		if s.Unknown {
+			b.unk = append(b.unk, s)
 		}
 		if len(s.Name) > 2 && s.Name[:2] == "By" {
 			b.byst = append(b.byst, s)
@@ -145,9 +149,9 @@ var budgets = []int{40, 120, 120, 300, 300, 600, 600, 1500, 5000, 20000, 70000, 
 func (b *Bank) pickValid(r *model.Rng) *model.StructDef { return b.valid[r.Intn(len(b.valid))] }
 
 // Op derives operation id of this bank.
-func (b *Bank) Op(id uint64) OpSpec {
+func (b *Bank) Op(id uint64) (op OpSpec) {
 	r := model.NewRng(model.Mix(b.C.Seed, b.profID, id))
-	op := OpSpec{ID: id, VSeed: r.Next(), FSeed: r.Next(), Shared: -1}
+	op = OpSpec{ID: id, VSeed: r.Next(), FSeed: r.Next(), Shared: -1}
 	op.Budget = budgets[r.Intn(len(budgets))]
 	op.Foreign = r.Chance(1, 3)
 	roll := r.Intn(100)
@@ -198,6 +202,14 @@ func (b *Bank) Op(id uint64) OpSpec {
 			op.Fault = []string{"trunc", "trunc", "count", "zerotail", "code"}[r.Intn(5)]
 		}
 	case "C07", "C08", "C17":
+		defer func() {
+			// a quarter of the codec operations go to types with the unknown-fields holder, written by a foreign writer
+			if (op.Kind == "dec" || op.Kind == "decseq" || op.Kind == "enc" || op.Kind == "size") && len(b.unk) > 0 && id%4 == 1 {
+				if sd := b.C.Get(op.Type); sd != nil && !sd.Rejected() {
+					op.Type, op.Foreign = b.unk[int(id/4)%len(b.unk)].Name, true
+				}
+			}
+		}()
 		switch {
 		case roll < 12:
 			op.Kind, op.Type = "size", b.pickValid(r).Name
@@ -492,21 +504,25 @@ func retargetLegacy(rs *RunSpec, b *Bank, r *model.Rng) {
 		out = append(out, st)
 	}
 	// storms: every task starts with the same setter (or another legacy control) at about the same time
-	if rs.Tasks > 1 && r.Chance(1, 2) {
-		want := []string{"setdepth", "setil", "nojit", "pretouch"}[r.Intn(4)]
-		var ids []uint64
-		for id := uint64(0); id < b.Size && len(ids) < 8; id++ {
-			if op := b.Op(id); op.Kind == "legacy" && op.Legacy == want {
-				ids = append(ids, id)
+	if rs.Tasks > 1 && r.Chance(3, 4) {
+		byKind := map[string][]uint64{}
+		for id := uint64(0); id < b.Size; id++ {
+			if op := b.Op(id); op.Kind == "legacy" && len(byKind[op.Legacy]) < 6 {
+				byKind[op.Legacy] = append(byKind[op.Legacy], id)
 			}
 		}
-		if len(ids) > 0 {
-			var pre []Step
-			for t := 0; t < rs.Tasks; t++ {
-				for k := 0; k < 2; k++ {
+		kinds := []string{"getstats", "pretouch", "setdepth", "setil", "nojit", "pretouch-opts"}
+		var pre []Step
+		for t := 0; t < rs.Tasks; t++ {
+			// every task: a metrics poll, a warm-up and a setter, in a seeded order, before and between its first uses
+			for k := 0; k < 3; k++ {
+				ids := byKind[kinds[(t+k+r.Intn(2))%len(kinds)]]
+				if len(ids) > 0 {
 					pre = append(pre, Step{Task: t, Op: ids[r.Intn(len(ids))]})
 				}
 			}
+		}
+		if len(pre) > 0 {
 			out = append(pre, out...)
 			for i := range rs.Sched.StartAt {
 				rs.Sched.StartAt[i] = int64(r.Intn(12))
